@@ -5,6 +5,7 @@
 
 use simcore::model::*;
 use sophia_api::term::{IriRef, SimpleTerm, Term};
+use sophia_api::quad::{Quad, Spog};
 use sophia_api::triple::Triple;
 use std::cell::Cell;
 use std::rc::Rc;
@@ -136,4 +137,41 @@ pub fn model_chain(items: &[MTriple], ops: &[Op]) -> (Vec<MTriple>, Vec<u32>) {
         out.push(cur);
     }
     (out, calls)
+}
+
+// ---------------------------------------------------------------------------------------------
+// the same closures on the quad side (after `to_quads()`)
+
+fn qid<Q: Quad>(q: &Q) -> u64 {
+    let s = id_of(q.s());
+    if s != 63 { s } else { id_of(q.o()) }
+}
+
+pub fn keepq<Q: Quad>(op: &Op, q: &Q) -> bool {
+    op.calls.set(op.calls.get() + 1);
+    (op.mask >> (qid(q) & 63)) & 1 == 1
+}
+
+fn renameq_inner<Q: Quad>(k: u8, q: Q) -> Spog<SimpleTerm<'static>> {
+    let ([s, p, o], g) = q.to_spog();
+    let renamed = p.iri().map(|i| renamed_predicate(k, i.as_str()));
+    let p2 = match renamed {
+        Some(r) => SimpleTerm::Iri(IriRef::new_unchecked(r.into())),
+        None => p.into_term(),
+    };
+    ([s.into_term(), p2, o.into_term()], g.map(Term::into_term))
+}
+
+pub fn renameq<Q: Quad>(op: &Op, q: Q) -> Spog<SimpleTerm<'static>> {
+    op.calls.set(op.calls.get() + 1);
+    renameq_inner(op.k, q)
+}
+
+pub fn fmapq<Q: Quad>(op: &Op, q: Q) -> Option<Spog<SimpleTerm<'static>>> {
+    op.calls.set(op.calls.get() + 1);
+    if (op.mask >> (qid(&q) & 63)) & 1 == 1 {
+        Some(renameq_inner(op.k, q))
+    } else {
+        None
+    }
 }
